@@ -117,7 +117,21 @@ def main():
             return (o[0], json.dumps({k: v for k, v in o[1].items() if not k.startswith('_')}, sort_keys=True, default=str))
         try:
             qk = {key(o) for o in mod.obligations('quick', seed)}
-            obls = [o for o in obls if key(o) in qk] + [o for o in obls if key(o) not in qk]
+            def cost(o):
+                # crude size estimate of a shape: the sum of its integer parameters (bit lengths, offsets, precisions)
+                tot = 0
+                for k, v in o[1].items():
+                    if k.startswith('_'):
+                        continue
+                    vs = v if isinstance(v, (list, tuple)) else [v]
+                    for x in vs:
+                        if isinstance(x, int) and not isinstance(x, bool):
+                            tot += abs(x)
+                        elif isinstance(x, (list, tuple)):
+                            tot += sum(abs(y) for y in x if isinstance(y, int) and not isinstance(y, bool))
+                return tot
+            rest = sorted([o for o in obls if key(o) not in qk], key=cost)
+            obls = [o for o in obls if key(o) in qk] + rest
         except Exception:
             pass
     if a.only:
